@@ -67,6 +67,7 @@ def parse_docstring_annotation(
     with suppress(
         AttributeError,  # Docstring has no parent that can be used to resolve names.
         SyntaxError,  # Annotation contains syntax errors.
+        ValueError,  # Annotation contains text that cannot be encoded (lone surrogates).
         RecursionError,  # Annotation is too deeply nested for the parser.
         MemoryError,  # Same, as reported by older parsers.
     ):
